@@ -275,8 +275,18 @@ class Tracer(object):
         new_id = self.cur_tx_id() or 0
         self.emit('ev bf %d %d %s' % (new_id, 1 if plugin_mod else 0, ';'.join(views) or '-'))
         self.in_flush = True
+        self.bf_pos = len(self.lines)
+        self.bf_cur = new_id
 
     def on_after_flush(self, session, ctx):
+        cur = self.cur_tx_id() or 0
+        if getattr(self, 'bf_cur', 0) == 0 and cur != 0 and getattr(self, 'in_flush', False):
+            # continuum created the transaction record inside after_flush (rows of versioned classes written by
+            # the flush itself, e.g. a foreign key nulled because a non-versioned parent was deleted).  The model
+            # creates it at the START of such a flush (nothing observable lies in between): the event is inserted
+            # right after the `bf` line.
+            self.lines.insert(self.bf_pos, 'ev manualtx %d' % cur)
+            self.events += 1
         self.emit('ev af')
         self.in_flush = False
 
